@@ -378,7 +378,11 @@ impl ShapeRunner {
         self.mgr
             .run(&inputs)
             .into_iter()
-            .map(|(_, out)| match out {
+            .enumerate()
+            .map(|(i, (_, out))| match out {
+                // an accepted program of ordinary size on which a later stage overflows the stack is
+                // a crash of the compiler on an accepted program (the towers of KF-C07-2 are longer)
+                Out::Died(stage, how) if stage != "check" && how.contains("stack-overflow") && inputs[i].text.len() < 4000 => ShapeVerdict::Panicked(stage, format!("the worker process died: {how}")),
                 Out::Errors(..) => ShapeVerdict::Rejected,
                 Out::Ok(w) if w.starts_with("known-cause:") => ShapeVerdict::KnownCause(w["known-cause:".len()..].to_string()),
                 Out::Ok(w) => {
